@@ -10,8 +10,8 @@ Reads (with `ast`, never importing) the *current* sources
     graphslam/edge/base_edge.py         calc_chi2, the two comprehension bodies of
                                         calc_chi2_gradient_hessian
 
-and writes Lean definitions, generic over the `Scalar`/`ScalarF` interface
-(GraphSlam/Core/Scalar.lean), into <out>/GraphSlam/Generated/*.lean, plus
+and writes Lean definitions, generic over the `Scalar`/`ScalarF`/`ScalarT` interface
+(GraphSlam/Core/Scalar.lean; `ScalarT` = `ScalarF` + `atan2`, needed by `PoseSE2.from_matrix` only), into <out>/GraphSlam/Generated/*.lean, plus
 `generated_manifest.json` (method -> source span, sha256, signature, how the harness can
 call the Python original) and `Dispatch.lean` (name -> Float evaluator, used by the driver).
 
@@ -102,6 +102,24 @@ def needs_F(e):
 
 
 NEEDS_F = set()  # lean names of generated defs that need ScalarF
+NEEDS_T = set()  # lean names of generated defs that need ScalarT (atan2)
+
+
+def needs_T(e):
+    """does scalar expression e need ScalarT (the two-argument arctangent)?"""
+    t = e[0]
+    if t in ("lit", "arg", "sarg"):
+        return False
+    if t in ("idx", "idx2"):
+        return any(n + " " in e[1] + " " for n in NEEDS_T)
+    if t == "ite":
+        c = e[1]
+        return needs_T(c[1]) or needs_T(c[2]) or needs_T(e[2]) or needs_T(e[3])
+    if t == "fn":
+        return e[1].startswith("ScalarT.") or any(n + " " in e[1] + " " for n in NEEDS_T) or any(needs_T(a) for a in e[2])
+    if t == "neg":
+        return needs_T(e[1])
+    return needs_T(e[1]) or needs_T(e[2])
 
 
 def paren(s):
@@ -357,11 +375,24 @@ class Ctx:
                 items = self.seq_items(v, n)
                 lo, hi = self.slice_bounds(n.slice, len(items), n)
                 return Vec(None, items[lo:hi])
+            if isinstance(n.slice, ast.Tuple):
+                # matrix[i, j] with constant indices on a 2-D array
+                if not (isinstance(v, Mat) and len(n.slice.elts) == 2):
+                    self.bad(n, "tuple subscript of %s" % type(v).__name__)
+                i, j = (self.const_int(x, n) for x in n.slice.elts)
+                r, c = v.shape
+                if not (-r <= i < r and -c <= j < c):
+                    self.bad(n, "matrix index (%d, %d) out of range for shape %s" % (i, j, v.shape))
+                return v.rows[i][j]
             i = self.const_int(n.slice, n)
             if isinstance(v, PyList):
                 return v.items[i]
             if isinstance(v, Vec):
                 return v.comps[i]
+            if isinstance(v, Mat):
+                if not -v.shape[0] <= i < v.shape[0]:
+                    self.bad(n, "row index %d out of range for shape %s" % (i, v.shape))
+                return Vec(None, v.rows[i])  # matrix[i] is row i
             self.bad(n, "subscript of %s" % type(v).__name__)
         if isinstance(n, ast.Attribute):
             return self.attribute(n)
@@ -424,6 +455,15 @@ class Ctx:
             np_name = "linalg." + f.attr
         if np_name is not None:
             return self.np_call(n, np_name, args)
+        # math.atan2(y, x): only when `math` is the standard module imported at the top of the file
+        if isinstance(f, ast.Attribute) and isinstance(f.value, ast.Name) and f.value.id == "math":
+            if not tr.imports_plain(self.file, "math") or "math" in self.env:
+                self.bad(n, "`math` is not the plainly imported standard module")
+            if f.attr == "atan2" and len(args) == 2 and not n.keywords:
+                y, x = self.ev(args[0]), self.ev(args[1])
+                if isinstance(y, tuple) and isinstance(x, tuple):
+                    return ("fn", "ScalarT.atan2", [y, x])
+            self.bad(n, "math.%s" % f.attr)
         # x.view(cls)
         if isinstance(f, ast.Attribute) and f.attr == "view":
             v = self.ev(f.value)
@@ -466,6 +506,10 @@ class Ctx:
             a = ev(args[0])
             if isinstance(a, tuple):
                 return ("fn", "ScalarF.sqrt", [a])
+        if name == "arctan2" and len(args) == 2 and not n.keywords:
+            y, x = ev(args[0]), ev(args[1])
+            if isinstance(y, tuple) and isinstance(x, tuple):
+                return ("fn", "ScalarT.atan2", [y, x])
         if name == "linalg.norm":
             v = ev(args[0])
             items = self.seq_items(v, n)
@@ -569,6 +613,25 @@ class Translator:
         t = ast.parse(s, filename=rel)
         self.tree[rel] = t
         return t
+
+    def imports_plain(self, rel, module):
+        """is there a top-level `import <module>` (no alias) in file rel, and no other top-level binding of that name?"""
+        found = False
+        for n in self.load(rel).body:
+            if isinstance(n, ast.Import):
+                for a in n.names:
+                    if a.name == module and a.asname is None:
+                        found = True
+                    elif (a.asname or a.name.split(".")[0]) == module:
+                        return False
+            elif isinstance(n, ast.ImportFrom):
+                if any((a.asname or a.name) == module for a in n.names):
+                    return False
+            elif isinstance(n, (ast.FunctionDef, ast.ClassDef)) and n.name == module:
+                return False
+            elif isinstance(n, ast.Assign) and any(isinstance(t, ast.Name) and t.id == module for t in n.targets):
+                return False
+        return found
 
     def find_class(self, rel, cname):
         for n in self.load(rel).body:
@@ -681,9 +744,13 @@ class Translator:
             f = False
         else:
             raise AssertionError(ret)
+        comps = [ret] if isinstance(ret, tuple) else ret.comps if isinstance(ret, Vec) else [c for r in ret.rows for c in r] if isinstance(ret, Mat) else []
+        t = any(needs_T(c) for c in comps)
         if f:
             NEEDS_F.add(lean)
-        d = dict(group=group, lean=lean, params=params, ret=rk, needsF=f, file="graphslam/" + rel, line=node.lineno, end_line=node.end_lineno, sha256=hashlib.sha256(seg.encode()).hexdigest(), py=py, doc_shape=doc_shape, note=note, body=ret)
+        if t:
+            NEEDS_T.add(lean)
+        d = dict(group=group, lean=lean, params=params, ret=rk, needsF=f, needsT=t, file="graphslam/" + rel, line=node.lineno, end_line=node.end_lineno, sha256=hashlib.sha256(seg.encode()).hexdigest(), py=py, doc_shape=doc_shape, note=note, body=ret)
         self.defs.append(d)
         self.by_lean[lean] = d
         return d
@@ -757,6 +824,26 @@ class Translator:
             unary(name)
         if "to_matrix" in funcs:
             unary("to_matrix")
+        if "from_matrix" in funcs:
+            # classmethod: matrix (a (k x k) homogeneous array, k = shape of what to_matrix returns) -> pose; `cls(...)` is the
+            # class's own constructor (interpreted, with its angle wrap).  Anything else in the body stops the translation.
+            fn = funcs["from_matrix"]
+            if [ast.unparse(x) for x in fn.decorator_list] != ["classmethod"]:
+                raise Untranslatable(rel, fn.lineno, "from_matrix is not a plain @classmethod")
+            params = [a.arg for a in fn.args.args]
+            if len(params) != 2 or fn.args.vararg or fn.args.kwarg or fn.args.kwonlyargs or fn.args.defaults:
+                raise Untranslatable(rel, fn.lineno, "from_matrix signature is not (cls, matrix)")
+            tm = self.sigs.get((cname, "to_matrix"), {}).get("ret")
+            if not (tm and tm[0] == "mat" and tm[1] == tm[2]):
+                raise Untranslatable(rel, fn.lineno, "from_matrix without a square to_matrix to take the shape from")
+            k = tm[1]
+            mname = params[1]
+            marg = Mat([[("idx2", mname, i, j) for j in range(k)] for i in range(k)], lean=mname)
+            ctx = run(fn, {params[0]: cname, mname: marg}, self_name=None)
+            r = ctx.ret
+            if ctx.raised or not isinstance(r, Vec) or r.cls != cname or len(r) != d:
+                raise Untranslatable(rel, fn.lineno, "from_matrix does not return a %s" % cname)
+            self.emit(group, cname + ".from_matrix", [(mname, ("mat", k, k))], r, rel, fn, dict(kind="from_matrix", cls=cname, name="from_matrix", args=[["mat", k, k]]))
         unary("position", kind="property")
         unary("orientation", kind="property")
         unary("inverse", kind="property")
@@ -965,7 +1052,7 @@ class Translator:
 
     def render_def(self, d):
         body = d["body"]
-        cls = "ScalarF" if d["needsF"] else "Scalar"
+        cls = "ScalarT" if d.get("needsT") else "ScalarF" if d["needsF"] else "Scalar"
         gdims = sorted({x for _, k in d["params"] for x in k[1:] if isinstance(x, str) and k[0] in ("gvec", "gmat")})
         binders = "".join(" {%s : Nat}" % g for g in gdims)
         binders += " {E : Type} [%s E]" % cls
@@ -1021,6 +1108,9 @@ class Translator:
         files[os.path.join(gen, "GraphPy.lean")] = getattr(self, "graph_txt", None) or (
             "import GraphSlam.Core.Scalar\n\n/-! GENERATED: graph.py snippets could NOT be located in the current source:\n%s -/\n" % str(getattr(self, "graph_error", "not translated")).replace("-/", "- /"))
         import py2lean_cmp as _PCM
+        import py2lean_g2o as _PGO
+
+        files[os.path.join(gen, "G2OPy.lean")] = getattr(self, "g2o_txt", None) or _PGO.stub(str(getattr(self, "g2o_error", "not translated")))
 
         files[os.path.join(gen, "CmpPy.lean")] = getattr(self, "cmp_txt", None) or _PCM.stub(str(getattr(self, "cmp_error", "not translated")))
         man = []
@@ -1029,6 +1119,7 @@ class Translator:
             man.append(m)
         man += getattr(self, "graph_man", [])
         man += getattr(self, "cmp_man", [])
+        man += getattr(self, "g2o_man", [])
         files[os.path.join(out, "generated_manifest.json")] = json.dumps(dict(repo=self.repo, defs=man), indent=1, default=list) + "\n"
         changed = []
         for p, txt in files.items():
@@ -1062,6 +1153,9 @@ class Translator:
                 elif k[0] == "vec":
                     args.append("(vecOf %d a (%s))" % (k[1], off))
                     off = "%s + %d" % (off, k[1])
+                elif k[0] == "mat":
+                    args.append("(matOf %d %d a (%s))" % (k[1], k[2], off))
+                    off = "%s + %d" % (off, k[1] * k[2])
                 elif k[0] == "gvec":
                     args.append("(vecOf %s a (%s))" % (dimv[k[1]], off))
                     off = "%s + %s" % (off, dimv[k[1]])
@@ -1148,8 +1242,20 @@ def main(argv):
     except (KeyError, SyntaxError, FileNotFoundError, IndexError, AttributeError, TypeError, ValueError) as e:
         tr.cmp_error = "%s: %s" % (type(e).__name__, e)
         cmp_ = dict(status="untranslatable", file="?", line=0, reason=tr.cmp_error)
+    import py2lean_g2o as PGO
+
+    g2o_ = dict(status="ok")
+    try:
+        tr.g2o_txt, tr.g2o_man = PGO.translate(a.repo)
+        g2o_["defs"] = len(tr.g2o_man)
+    except PGO.Untranslatable as e:
+        tr.g2o_error = str(e)
+        g2o_ = dict(status="untranslatable", file=getattr(e, "file", "?"), line=getattr(e, "line", 0), reason=getattr(e, "reason", str(e)))
+    except (KeyError, SyntaxError, FileNotFoundError, IndexError, AttributeError, TypeError, ValueError) as e:
+        tr.g2o_error = "%s: %s" % (type(e).__name__, e)
+        g2o_ = dict(status="untranslatable", file="?", line=0, reason=tr.g2o_error)
     changed = tr.write(os.path.abspath(a.out))
-    print(json.dumps(dict(status="ok", defs=len(tr.defs) + len(getattr(tr, "graph_man", [])) + len(getattr(tr, "cmp_man", [])), changed=changed, graph=graph, cmp=cmp_)))
+    print(json.dumps(dict(status="ok", defs=len(tr.defs) + len(getattr(tr, "graph_man", [])) + len(getattr(tr, "cmp_man", [])) + len(getattr(tr, "g2o_man", [])), changed=changed, graph=graph, cmp=cmp_, g2o=g2o_)))
     return 0
 
 
